@@ -35,10 +35,10 @@ REAL = ['glue.core.fixed_resolution_buffer (compute_fixed_resolution_buffer, tra
         'glue.core.data', 'glue.core.subset']
 STUB = ['affine link functions (closures created by the harness)', 'uuid and identity-hash streams']
 ASSUMPTIONS = ['data, links and selections do not change after set-up (the statement quantifies over unchanged data)',
-               'ImageLayerState.get_sliced_data is not driven in this tier', 'sampling, not proof']
+               'image planes are read through ImageLayerState / ImageSubsetLayerState.get_sliced_data on a stand-alone ImageViewerState (no matplotlib viewer)', 'sampling, not proof']
 PROBES = ['cache_hit_same_request', 'cache_after_other_bounds', 'cache_after_other_attribute', 'cache_after_other_dataset', 'scalar_bound_changed',
           'wholly_outside', 'partly_outside', 'halfway_sample', 'mask_request', 'broadcast_dimension', 'permuted_axes', 'negative_scale',
-          'unlinked_axis_incompatible', 'same_dataset_request']
+          'unlinked_axis_incompatible', 'same_dataset_request', 'image_plane_read', 'image_slice_changed']
 
 WEIGHTS = {'req': 10, 'repeat': 3}
 
@@ -59,7 +59,13 @@ def generate(rng, cfg, guards):
         ops.append(['src', list(sshape), rng.randrange(10000), maps])
     for _ in range(rng.randrange(1, 4)):
         ops.append(['state', rng.pick(['ineq', 'ineq', 'pix', 'mask', 'slice', 'and']), rng.randrange(8), rng.randrange(-2, 9) + 0.5, rng.randrange(1000)])
+    if rng.chance(0.35):
+        ops.append(['img_new'])
     while len(ops) < n:
+        if any(o[0] == 'img_new' for o in ops) and rng.chance(0.4):
+            k = rng.pick(['img_read', 'img_read', 'img_read', 'img_slice', 'img_slice', 'img_axes', 'img_attr'])
+            ops.append([k, rng.randrange(8), rng.randrange(8), rng.randrange(8)])
+            continue
         if rng.chance(0.25) and any(o[0] == 'req' for o in ops):
             ops.append(['repeat', rng.randrange(8), rng.pick([None, 'A', 'A', 'B']), rng.pick(['same', 'src', 'src', 'what', 'nobroadcast'])])
             continue
@@ -117,6 +123,7 @@ def execute(case, res):
     maps = {}           # id(src) -> list of (ref axis, a, b) or None per source axis
     states = []         # (glue state, model function(dataset) -> full mask or None if not evaluable)
     history = {}        # cache id -> list of request descriptors
+    image = {}
     reqs = []
     for op in case['ops']:
         k = op[0]
@@ -175,6 +182,94 @@ def execute(case, res):
                 st = S.InequalitySubsetState(d.id['a'], thr, operator.gt) & S.InequalitySubsetState(d.id['b'], 3, operator.lt)
                 fn = (lambda dd, d=d, thr=thr: ((np.asarray(d['a']) > thr) & (np.asarray(d['b']) < 3)) if dd is d else None)
             states.append((st, fn, d))
+        elif k == 'img_new':
+            if len(datasets) < 2 or image:
+                continue
+            from glue.viewers.image.state import ImageViewerState, ImageLayerState, ImageSubsetLayerState
+            ref = datasets[0]
+            vs = ImageViewerState()
+            layers = []
+            for d in datasets:
+                ls = ImageLayerState(viewer_state=vs, layer=d)
+                vs.layers.append(ls)
+                layers.append((ls, d, None))
+            for st, fn, owner in states[:2]:
+                g = dc.new_subset_group(subset_state=st)
+                sub = [x for x in owner.subsets if x.group is g][0]
+                ls = ImageSubsetLayerState(viewer_state=vs, layer=sub)
+                vs.layers.append(ls)
+                layers.append((ls, owner, fn))
+            if vs.reference_data is not ref:
+                vs.reference_data = ref
+            image.update(vs=vs, layers=layers)
+        elif k in ('img_slice', 'img_axes', 'img_attr', 'img_read'):
+            if not image:
+                continue
+            vs = image['vs']
+            ref = vs.reference_data
+            if k == 'img_slice':
+                sl = list(vs.slices)
+                ax = op[1] % ref.ndim
+                sl[ax] = op[2] % ref.shape[ax]
+                vs.slices = tuple(sl)
+                res.probe('image_slice_changed')
+            elif k == 'img_axes':
+                pix = ref.pixel_component_ids
+                vs.x_att = pix[op[1] % ref.ndim]
+                if op[2] % 2:
+                    vs.y_att = pix[op[3] % ref.ndim]
+            elif k == 'img_attr':
+                ls, d, fn = image['layers'][op[1] % len(image['layers'])]
+                if fn is None:
+                    ls.attribute = d.id['a'] if op[2] % 2 == 0 else d.id['b']
+            else:
+                ls, d, fn = image['layers'][op[1] % len(image['layers'])]
+                xa, ya = vs.x_att.axis, vs.y_att.axis
+                bounds = []
+                for i in range(ref.ndim):
+                    if i in (xa, ya):
+                        bounds.append((0, ref.shape[i] - 1, ref.shape[i]))
+                    else:
+                        bounds.append(vs.slices[i])
+                if fn is None:
+                    full = np.asarray(d[ls.attribute], dtype=float)
+                    invalid_value = np.nan
+                else:
+                    full = fn(d)
+                    invalid_value = False
+                exp = model(d, ref, maps, bounds, full, invalid_value, res)
+                used = set(m[0] for m in (maps[id(d)] if d is not ref else [(j, 1, 0) for j in range(ref.ndim)]) if m is not None)
+                try:
+                    got = ls.get_sliced_data()
+                    st_ = 'ok'
+                except IncompatibleAttribute:
+                    st_ = 'incompatible'
+                except IncompatibleDataException:
+                    st_ = 'nobroadcast'
+                res.nchecks += 1
+                res.probe('image_plane_read')
+                res.fp('img', d.ndim, ref.ndim, xa, ya, fn is None)
+                if isinstance(exp, str):
+                    if st_ == 'ok':
+                        raise Violation('C16/image-plane-evaluated-without-links', 'layer %s' % d.label)
+                    continue
+                if not ({xa, ya} <= used):
+                    # an axis of the plane does not reach the layer's dataset: the viewer asks for no broadcasting
+                    if st_ == 'ok' and d is not ref:
+                        raise Violation('C16/image-plane-broadcast-not-refused', 'layer %s axes %s/%s used %s' % (d.label, xa, ya, sorted(used)))
+                    continue
+                if st_ != 'ok':
+                    raise Violation('C16/image-plane-not-available/%s' % st_, 'layer %s axes x=%d y=%d slices %s' % (d.label, xa, ya, vs.slices))
+                if ya > xa:
+                    tr = np.empty(exp.shape[::-1], dtype=object)
+                    for idx in np.ndindex(*exp.shape):
+                        tr[idx[::-1]] = exp[idx]
+                    exp = tr
+                res.nontrivial = True
+                if np.asarray(got).shape != exp.shape or not matches(got, exp):
+                    raise Violation('C16/image-plane-differs/%s' % ('values' if fn is None else 'mask'),
+                                    'layer %s ref %s maps %s axes x=%d y=%d slices %s: glue %s model %s' % (
+                                        d.shape, ref.shape, maps[id(d)], xa, ya, vs.slices, np.asarray(got).tolist(), exp.tolist()))
         elif k in ('req', 'repeat'):
             if k == 'repeat':
                 if not reqs:
